@@ -2,6 +2,7 @@ import RjModel.Model.Regex
 import RjModel.Lemmas.BossTraces
 import RjModel.Lemmas.FilteredListing
 import RjModel.Generated.Constants
+import RjModel.Generated.FilterLoop
 /-! # C06 — filters select by whole-path match, last match wins, same on both sides -/
 namespace Rj.C06
 open Rj
@@ -217,5 +218,69 @@ theorem C06_excluded_untouched_included_mirrored (fs : List (Bool × Re)) (S D :
   obtain ⟨D', h1, -, -, h4, h5⟩ := sync_mirror (destWF_of_listNodesF (keepOf fs) D hD rd hroot hanc hclosed fD hfuel)
     (srcWF_of_treeF (keepOf fs) S rs fS hS) hsafe
   exact ⟨D', h1, h4, h5⟩
+
+/-! ### `apply_filters` as it is written in `doer.rs` -/
+
+theorem assignLoop_eq (kinds matched : List Bool) (hl : matched.length = kinds.length) :
+    ∀ (pre : List Bool) (acc : Bool),
+      assignLoop true false (pre ++ kinds) (idxFrom pre.length matched) (some acc) =
+        some ((kinds.zip matched).foldl (fun acc (p : Bool × Bool) => if p.2 then p.1 else acc) acc) := by
+  induction matched generalizing kinds with
+  | nil => intro pre acc; cases kinds <;> simp [idxFrom, assignLoop]
+  | cons m ms ih =>
+    intro pre acc
+    cases kinds with
+    | nil => simp at hl
+    | cons k ks =>
+      have hl' : ms.length = ks.length := by simpa using hl
+      have hpre : pre ++ k :: ks = (pre ++ [k]) ++ ks := by simp
+      have := ih ks hl' (pre ++ [k])
+      simp only [List.length_append, List.length_cons, List.length_nil] at this
+      cases m with
+      | false =>
+        simp only [idxFrom, Bool.false_eq_true, ↓reduceIte, List.nil_append, List.zip_cons_cons, List.foldl_cons]
+        rw [hpre]; exact this acc
+      | true =>
+        simp only [idxFrom, ↓reduceIte, List.zip_cons_cons, List.foldl_cons]
+        unfold assignLoop
+        simp only [List.cons_append, List.nil_append, List.foldl_cons, Option.bind_some]
+        have hk : (pre ++ k :: ks)[pre.length]? = some k := by simp
+        rw [hk]
+        simp only [Option.map_some]
+        have e : (if k = true then true else false) = k := by cases k <;> rfl
+        rw [e, hpre]
+        exact this k
+
+/-- **`apply_filters` of `doer.rs`, as it is written** - its skeleton re-extracted from the source on every run (the early
+return for the root, the three arms of the default, the loop over the matched filter indices with its two assignments, and that
+the function consists of nothing else) and interpreted - **is the fold of the model** (`foldFilters`, about which `C06_fold_rule`
+speaks): for every filter list and every pattern of matches the loop over the ascending matched indices never indexes out of
+range and ends with the model's verdict; the root is included whatever the filters say. -/
+theorem C06_apply_filters_is_the_sources :
+    Generated.applyFiltersSkel.shape = true ∧
+    (∀ kinds matched, matched.length = kinds.length →
+      applyFiltersSrc Generated.applyFiltersSkel false kinds (idxFrom 0 matched) = some (foldFilters kinds matched)) ∧
+    (∀ kinds ms, applyFiltersSrc Generated.applyFiltersSkel true kinds ms = some true) := by
+  refine ⟨by decide, ?_, ?_⟩
+  · intro kinds matched hl
+    have key : ∀ acc, assignLoop true false kinds (idxFrom 0 matched) (some acc) =
+        some ((kinds.zip matched).foldl (fun acc (p : Bool × Bool) => if p.2 then p.1 else acc) acc) := by
+      intro acc
+      have h := assignLoop_eq kinds matched hl [] acc
+      simpa using h
+    have hs : Generated.applyFiltersSkel = ⟨true, false, true, true, true, false, true⟩ := by decide
+    rw [hs]
+    unfold applyFiltersSrc foldFilters
+    simp only [Bool.false_and, Bool.false_eq_true, ↓reduceIte]
+    cases kinds.head? with
+    | none => exact key true
+    | some b =>
+      cases b with
+      | false => exact key true
+      | true => exact key false
+  · intro kinds ms
+    have hs : Generated.applyFiltersSkel = ⟨true, false, true, true, true, false, true⟩ := by decide
+    rw [hs]
+    simp [applyFiltersSrc]
 
 end Rj.C06
